@@ -1,4 +1,8 @@
 # C01 - no datagram, however malformed, can crash the collector.
+import os
+import re
+
+import codec
 import fuzzrun
 import vlib
 
@@ -33,6 +37,43 @@ def sample(ctx, proto, pairs):
     ctx.sample({"proto": proto, "history": last[0]["msgs"], "outcome": [x["st"] for x in last[1]["res"]]})
 
 
+def concurrent_map_misuse(log):
+    """a Go map written while it is read or written elsewhere: the runtime aborts the process with an unrecoverable
+    'fatal error: concurrent map ...' when the timing is right.  Either that abort, or the race detector naming a
+    runtime map operation on one side of a race."""
+    m = re.search(r"fatal error: concurrent map[^\n]*", log)
+    if m:
+        return m.group(0)
+    for rep in re.findall(r"WARNING: DATA RACE.*?(?:\n==================|\Z)", log, re.S):
+        if re.search(r"runtime\.(mapassign|mapaccess|mapdelete|mapiter|mapclear)", rep):
+            return "concurrent map access (race detector): " + " / ".join(re.findall(r"^  ((?:runtime\.map|github)[^\n(]*)", rep, re.M)[:4])
+    return None
+
+
+def concurrent_stage(ctx, thorough):
+    """several workers decode at once, as in the collector (4 workers per protocol by default): template announcements
+    (new, changed, repeated unchanged), data sets, peer lookups and the shutdown dump on one cache; fresh and reloaded"""
+    from props import c10
+    for proto in ("ipfix", "v9"):
+        drv = c10.build(ctx, proto, race=True)
+        d = ctx.subdir("c01conc_" + proto)
+        for k in range(6 if thorough else 2):
+            rc, log, to = ctx.go_run(drv, "TestVerifCacheStress", timeout=600,
+                                     env={"VERIF_OUT": os.path.join(d, "o%d" % k), "VERIF_RECORD": "0", "VERIF_SEED": ctx.seed * 100 + 70 + k,
+                                          "VERIF_PRELOAD": k % 2, "VERIF_WORKERS": 8, "VERIF_OPS": 400 if thorough else 200, "VERIF_DUMPS": 40})
+            ctx.count([proto, "concurrent", ctx.seed, k])
+            if to:
+                raise vlib.Infra("concurrent stage timed out:\n" + log[-1500:])
+            what = concurrent_map_misuse(log)
+            if what:
+                ctx.violation("%s: workers decoding concurrently (well-formed template and data datagrams, dump, lookups) can kill the "
+                              "process: %s" % (codec.P[proto]["name"], what),
+                              {"run": "TestVerifCacheStress VERIF_RECORD=0 seed %d preload %d" % (ctx.seed * 100 + 70 + k, k % 2), "log": log[-2500:]},
+                              key=proto + ":concurrent-map")
+                break
+            ctx.traces_validated += 1
+
+
 def check(ctx):
     thorough = ctx.tier == "thorough"
     ctx.rule = ("TLC enumerates datagram histories at the grammar boundaries (spec/*Fuzz.tla: every 16-bit field and every octet "
@@ -40,10 +81,13 @@ def check(ctx):
                 "remaining+-1}, every truncation, trailing junk; after 0..2 cache-shaping datagrams: normal, variable-length, "
                 "zero-length-field, zero-field, options, oversized, missing-element templates) and proves the reference collector "
                 "total on them; every history plus seeded mutations of them is run through the real Decode + JSONMarshal with "
-                "recover and a watchdog, from 4-octet, IPv4-mapped and IPv6 exporter addresses. Non-trivial: the header was "
+                "recover and a watchdog, from 4-octet, IPv4-mapped and IPv6 exporter addresses; full-range well-formed histories (every "
+                "element type at its own, reduced and oversized lengths) as they are and mutated; and 8 workers decoding concurrently "
+                "on one cache under the race detector (a concurrently written Go map aborts the process). Non-trivial: the header was "
                 "accepted (decoding went past the first guard); distinct by history octets + exporter.")
     ctx.assumptions += ["universal quantification over all byte strings is explored, not enumerated",
                         "a watchdog 'hang' is judged by C02, not here"]
+    concurrent_stage(ctx, thorough)
     n = 200000 if thorough else 20000
     for proto, pairs in fuzzrun.all_protocols(ctx, thorough, n, False, 1):
         for job, r in pairs:
